@@ -22,6 +22,7 @@ import (
 	"github.com/btcsuite/btcd/wire/v2"
 	"github.com/lightninglabs/neutrino"
 	"github.com/lightninglabs/neutrino/banman"
+	"github.com/lightninglabs/neutrino/blockntfns"
 	"github.com/lightninglabs/neutrino/headerfs"
 	"verifharness/rejcorpus"
 	"verifharness/tr"
@@ -392,6 +393,7 @@ func DriveC17(t *tr.W, thorough bool) {
 	c17StopBehindGetCFilter(t, rng)
 	c17StopDuringRebroadcast(t, rng)
 	c17RescanUpdateParked(t, rng)
+	c17StopDuringReorg(t, rng)
 	iters := 4 * tr.EnvInt("VERIF_BUDGET", 1)
 	if thorough {
 		iters *= 4
@@ -871,4 +873,93 @@ func c17RescanUpdateParked(t *tr.W, rng *rand.Rand) {
 	retW, _ := timed(3*time.Second, rs.WaitForShutdown)
 	t.Op("call Rescan.WaitForShutdown", map[bool]string{true: "hung 0", false: "hung 1"}[retW])
 	t.Hit("c17.rescan-update-parked")
+}
+
+// c17StopDuringReorg: the client is synced and has a block subscriber; the peers deliver a heavier fork that
+// branches off `depth` blocks below the tip, so the block handler rolls the chain back block by block and hands
+// a Disconnected notification to the subscription manager for each.  Stop is called as soon as the subscriber
+// sees the first of them: ChainService.Stop stops the subscription manager (the only reader of the block
+// manager's notifications) before the block manager, i.e. in the middle of the roll-back.  Stop must return; if
+// it does not, the observation names the function the block handler is parked in.
+func c17StopDuringReorg(t *tr.W, rng *rand.Rand) {
+	depth := 45 + rng.Intn(20)
+	l := depth + 10 + rng.Intn(20)
+	sc := Scenario{Name: "stop-during-reorg", Len: l, Barrier: true, Peers: []Behaviour{honest(), honest()}}
+	t.Case("c17 stop-during-reorg len %d npeers 2 depth %d", l, depth)
+	s, err := New(sc, rng, t.Op)
+	if err != nil {
+		t.Op("setup", "err "+err.Error())
+		return
+	}
+	defer s.Cleanup()
+	peerLines(t, s)
+	if err := s.Start(); err != nil {
+		t.Op("start", "err "+err.Error())
+		return
+	}
+	ok := s.waitFor(6*time.Second, func(o Obs) bool { return s.converged(o) && len(o.Conn) == len(s.Peers) })
+	t.Op("waitsync", map[bool]string{true: "ok", false: "timeout"}[ok])
+	src := &neutrino.RescanChainSource{ChainService: s.CS}
+	sub, err := src.Subscribe(0)
+	if err != nil {
+		t.Op("subscribe", "err")
+		s.Stop()
+		return
+	}
+	firstDisc := make(chan struct{}, 1)
+	var ndisc int32
+	subDone := make(chan struct{})
+	go func() {
+		defer close(subDone)
+		for n := range sub.Notifications {
+			if _, isDisc := n.(*blockntfns.Disconnected); isDisc {
+				if atomic.AddInt32(&ndisc, 1) == 1 {
+					firstDisc <- struct{}{}
+				}
+			}
+		}
+	}()
+	tip := s.W.Honest()
+	nt := s.W.Extend(tip.Ancestor(tip.Height-int32(depth)), depth+1, s.W.NextLetter())
+	s.W.SetHonest(nt)
+	t.Op(fmt.Sprintf("reorg %d %d", depth, depth+1), fmt.Sprintf("honest %d:%s", nt.Height, nt.ID))
+	s.announce(false)
+	seen := true
+	select {
+	case <-firstDisc:
+	case <-time.After(6 * time.Second):
+		seen = false
+	}
+	t.Op("first-disconnected", map[bool]string{true: "seen", false: "not-seen"}[seen])
+	d := s.Stop()
+	if d < 0 {
+		site := "ChainService.Stop"
+		for _, g := range strings.Split(s.HangDump, "\n\n") {
+			if !strings.Contains(g, "(*blockManager).blockHandler") {
+				continue
+			}
+			for _, ln := range strings.Split(g, "\n") {
+				if strings.HasPrefix(ln, "github.com/lightninglabs/neutrino.") {
+					f := strings.TrimPrefix(ln, "github.com/lightninglabs/neutrino.")
+					if i := strings.LastIndex(f, "("); i > 0 {
+						f = f[:i]
+					}
+					site = strings.NewReplacer("(*", "", ")", "").Replace(f)
+					break
+				}
+			}
+		}
+		t.Op("stop", "HANG "+site)
+		hangStacks(t, s.HangDump, "(*ChainService).Stop", "(*blockManager).blockHandler")
+	} else {
+		t.Op("stop", "ok")
+		t.Line("# stop took %d ms; %d disconnected notifications were delivered before the subscription closed", d.Milliseconds(), atomic.LoadInt32(&ndisc))
+		select {
+		case <-subDone:
+			t.Op("call Subscription.Notifications", "hung 0")
+		case <-time.After(3 * time.Second):
+			t.Op("call Subscription.Notifications", "hung 1")
+		}
+	}
+	t.Hit("c17.stop-during-reorg")
 }
